@@ -282,11 +282,16 @@ def build(qr, cls, ints):
         p = dict(ftype="OverdampedBrownian", reorg=20.0 + abs(ints[0]), cortime=40.0 + abs(ints[1]), T=300.0, matsubara=5)
         with qr.energy_units("1/cm"):
             o = getattr(qr, cls)(ta, p)
+        # the function has been evaluated between its grid points (spline interpolation) before it is saved
+        with qr.energy_units("int"):
+            xs = [float(o.axis.data[k]) + 0.37 * float(o.axis.step) for k in (len(o.axis.data) // 2 + 1, len(o.axis.data) // 2 + 4)]
+            o.at(xs[0], approx="spline")
 
         def ex(x):
             with qr.energy_units("int"):
                 return {"data": numpy.array(x.data), "axis": numpy.array(x.axis.data),
-                        "lamb": numpy.array([x.get_reorganization_energy()])}
+                        "lamb": numpy.array([x.get_reorganization_energy()]),
+                        "interpolated": numpy.array([x.at(v, approx="spline") for v in xs])}
         return o, ex
     if cls in ("AbsSpectrum", "AbsSpectrumContainer"):
         with qr.energy_units("1/cm"):
